@@ -134,6 +134,7 @@ def run_bin(ctx, name, args, parallel=True, timeout=3600, want_json=True, featur
 
 RE_STATES = re.compile(r"(\d+) states generated, (\d+) distinct states found")
 RE_INV = re.compile(r"Error: Invariant (\w+) is violated")
+RE_ACT = re.compile(r"^<(\w+) line \d+, col \d+ to line \d+, col \d+ of module \w+>: (\d+):(\d+)")
 RE_PROP = re.compile(r"Error: (?:Action|Temporal) property (\w+) is violated|Error: Temporal properties were violated")
 
 
@@ -161,7 +162,7 @@ def tlc_mc(ctx, module, cfg, workers=8, timeout=3600, simulate=None, capture_rep
         f.write(cfg)
     outp = ctx.fresh("tlc", "out")
     md = ctx.fresh("md", "d")
-    cmd = ["tlc", "-workers", str(workers), "-metadir", md, "-cleanup", "-noGenerateSpecTE", "-config", cfgp]
+    cmd = ["tlc", "-workers", str(workers), "-coverage", "1", "-metadir", md, "-cleanup", "-noGenerateSpecTE", "-config", cfgp]
     if simulate:
         cmd += ["-simulate", simulate[0], "-depth", str(simulate[1]), "-seed", str(ctx.seed)]
     cmd += list(extra_args)
@@ -181,6 +182,7 @@ def tlc_mc(ctx, module, cfg, workers=8, timeout=3600, simulate=None, capture_rep
     replay = None
     rp = None
     err_other = None
+    actions = {}
     if capture_replay:
         replay = ctx.fresh("replay", "txt")
         rp = open(replay, "w")
@@ -193,6 +195,9 @@ def tlc_mc(ctx, module, cfg, workers=8, timeout=3600, simulate=None, capture_rep
             m = RE_STATES.search(line)
             if m:
                 states, distinct = int(m.group(1)), int(m.group(2))
+            m = RE_ACT.match(line)
+            if m:
+                actions[m.group(1)] = max(actions.get(m.group(1), 0), int(m.group(3)))
             m = RE_INV.search(line)
             if m and not violated:
                 violated = m.group(1)
@@ -206,7 +211,10 @@ def tlc_mc(ctx, module, cfg, workers=8, timeout=3600, simulate=None, capture_rep
                 violated = "DEADLOCK"
     if rp:
         rp.close()
-    res = {"module": module, "states": states, "distinct": distinct, "violated": violated, "out": outp,
+    never = sorted(a for a, n in actions.items() if n == 0)
+    if never and violated is None:
+        ctx.cov.setdefault("actions_never_taken", []).append({"module": module, "actions": never})
+    res = {"module": module, "states": states, "distinct": distinct, "violated": violated, "out": outp, "actions": actions,
            "replay": replay, "wall_s": round(time.time() - t, 1), "timed_out": timed_out, "rc": rc}
     if timed_out and not simulate:
         raise ToolError("TLC timed out on %s" % module)
